@@ -16,7 +16,9 @@ ASSUMPTIONS = ["the semantic part (the reported column is the operator / comment
 
 ALPH = ["=", ":", "#", '"', "\\", "a", "é", " ", "`"]
 REAL = ['f("=") = 1', 'foo["a=b"] = "baz"', "x := 1 if input.y else = 2", 'x := "é" #c', "#c", "y = 2 #=", 'm("é\\\\d+", x)',
-        'm("a\\\\d", "b\\\\w")', 'm("\\"q\\\\d")', 'é = "=" # = #', 'm("ééééé\\\\d", x)']
+        'm("a\\\\d", "b\\\\w")', 'm("\\"q\\\\d")', 'é = "=" # = #', 'm("ééééé\\\\d", x)',
+        # patterns ending in an escaped backslash with a later literal on the line (closing quote after an even run)
+        'm("\\\\", "/")', 'm("a\\\\\\\\", "b")', 'm("\\\\\\"", "c")']
 
 
 def part_fn(ctx):
